@@ -425,7 +425,7 @@ Definition latin_1_convert_from_utf32 (d : dst) (utf32 : list N) (m : vmode) (su
   walk (fun s d =>
           bigch <- rdu s 0 ;;
           if (0x10FFFF <? bigch) && is_check m then Ok (Return COutOfRange)
-          else latin_1_put sub bigch (skipn 1 s) d)
+          else latin_1_put sub (if 0x10FFFF <? bigch then 63 else bigch) (skipn 1 s) d)
        (S (length utf32)) utf32 d.
 
 (* =================================================================== st_utf_conv.h *)
